@@ -227,7 +227,7 @@ _run_cache = {}
 
 def run_program(prog: dict, args, assume, sem="E", max_steps=20000, max_paths=400, timeout_ms=10000, deadline_s=None):
     if deadline_s is None:
-        deadline_s = 90 if os.environ.get("VERIF_TIER", "quick") == "quick" else 240
+        deadline_s = int(os.environ.get("VERIF_EXPLORE_DEADLINE", "0")) or (90 if os.environ.get("VERIF_TIER", "quick") == "quick" else 240)
     # the same program is explored again and again when it is compared with several variants (C14: the silent build against
     # every trace setting; variants that generate identical code): explorations are memoised per process on the program text,
     # the argument names and the assumptions (symbolic arguments are z3 constants with deterministic names)
